@@ -533,7 +533,7 @@ void WorldQ::after_crash() {
 
 void WorldQ::finish() {
   full_scan_check("end of run");
-  finish_c01(); finish_c03(); finish_c14();
+  finish_c01(); finish_c03(); finish_c14(); finish_c15();
   if (second_pid && enabled("c02") && !second_got_lock) {
     int code = (second_status >> 8) & 0xff;
     if (second_status != -1 && (second_status & 0x7f) == 0 && code != 111) violate("C02.second-daemon-status", "second qmail-send exited " + std::to_string(code) + ", expected 111");
@@ -558,6 +558,13 @@ void WorldQ::finish_c01() {
 void WorldQ::finish_c14() {
   if (!enabled("c14") || !plan->knobs.getb("expect_drain", false) || !k->abort_reason.empty() || !send_pid || send_term_seen) return;
   for (auto *m : msgs) if (m->accepted && m->phase != GMsg::FINISHED) { violate("C14.chain-not-drained", m->id + " (msg " + std::to_string(m->num) + ", sender \"" + printable(m->info_sender) + "\") is still queued: the bounce chain did not end"); break; }
+}
+
+// C15, last clause: every message leaves the queue in bounded time. Judged on plans whose scripted outcomes are all final within the
+// horizon (the generator says so with expect_drain) and with a daemon running at the end.
+void WorldQ::finish_c15() {
+  if (!enabled("c15") || !plan->knobs.getb("expect_drain", false) || !k->abort_reason.empty() || !send_pid || send_term_seen) return;
+  for (auto *m : msgs) if (m->accepted && m->phase != GMsg::FINISHED) { violate("C15.never-leaves-queue", m->id + " (msg " + std::to_string(m->num) + ") is still in the queue at the end of the run, long after its last scheduled attempt: phase " + std::to_string((int)m->phase) + " pattern " + pat_str(scan_pattern(m->num))); break; }
 }
 
 void WorldQ::finish_c03() {
